@@ -232,7 +232,10 @@ class World:
         self.calls.append(rec)
         ncalls = len(self.calls)
         if op == 'play' and proc.paused:
+            # "the status message present before the pause": what the on_pausing hook saw - or, should that hook run when
+            # the pause is requested rather than when it takes effect, the last status the program set itself
             rec['status_expected'] = self.pre_pause_status
+            rec['status_alt'] = getattr(self, 'last_user_status', self.pre_pause_status)
         try:
             if op == 'pause':
                 ret = proc.pause(*args)
